@@ -108,7 +108,7 @@ FAMILIES["cancel"] = dict(SOLVE_FAMILY, rule="universes of all shapes (general/t
 FAMILIES["cancel-async"] = dict(SOLVE_FAMILY, rule="as `cancel` with an asynchronous provider (1/2 of the cases with asynchronous filter/sort too) under a FIFO / LIFO / seeded random completion order; the cancellation plan is drawn from the uncancelled run under the same schedule, so the signal can strike while several requests (incl. the members of a union requirement) are in flight")
 FAMILIES["reuse"] = dict(SOLVE_FAMILY, rule="2-4 solves on ONE solver over a generated universe (same problem again, or new requirements / constraints / soft lists), sync runtime; half of the cases with a transient cancellation placed at a random poll or provider request of the uncancelled history, so later solves run after a Cancelled (and after Unsolvable) outcome")
 FAMILIES["reuse-async"] = dict(SOLVE_FAMILY, rule="as `reuse` with an asynchronous provider: every get_candidates / get_dependencies (1/3: also filter/sort) is a future completed by a manual single-threaded executor according to a schedule (FIFO, LIFO, seeded random); cancellation can strike while requests are in flight")
-FAMILIES["async"] = dict(SOLVE_FAMILY, rule="one solve with an asynchronous provider under a manual single-threaded executor that completes one outstanding request at a time (FIFO / LIFO / seeded random schedules; 1/3 with filter_candidates and sort_candidates also asynchronous); the pending set at every quiescent point and every completion are recorded")
+FAMILIES["async"] = dict(SOLVE_FAMILY, rule="one solve with an asynchronous provider under a manual single-threaded executor that completes one outstanding request at a time (FIFO / LIFO / seeded random schedules; 1/3 with filter_candidates and sort_candidates also asynchronous; special shapes: look-ahead exclusion 1/15, big union 1/30, wide fan-out - more than 128 requests implied at once - 1/150); the pending set at every quiescent point and every completion are recorded")
 FAMILIES["async-cf"] = dict(SOLVE_FAMILY, rule="the conflict-free universes of `conflictfree` solved with the asynchronous provider and executor of `async` (all completion orders explored by FIFO/LIFO/random schedules)")
 FAMILIES["amo-solve"] = dict(SOLVE_FAMILY, rule="one package with n = 1..70 candidates (every power-of-two boundary of the helper encoding crossed) revealed through a union whose members are a random partition of the candidates in random order, "
     "random ranks, hints on/off, root requirements in random order; the problem requires two different candidates (expected Unsolvable) or exactly one (expected solvable)")
